@@ -110,3 +110,9 @@ _add_family(globals(), _ap, 'adaptpar', _ap.oracle, share=0.02)
 # compartments created at run time (also several by one update): their processes are simulated from then on
 from harness import dynflow as _df                 # noqa: E402
 _add_family(globals(), _df, 'dynflow', lambda case, impl: _df.oracle(case, impl, who=('alive',)), share=0.06)
+
+
+# a process put in the place of another one (deleted and re-created, replaced in place, also while the old one
+# lags behind with a deferred timestep) is simulated from the moment it entered, with the timesteps it asks for
+from harness import deadwriter as _dw                   # noqa: E402
+_add_family(globals(), _dw, 'deadwriter', _dw.oracle, share=0.04)
